@@ -1199,6 +1199,9 @@ class Suspender(Interrupter):
             return aux
 
         if not aux.done: #not done so active
+            if aux.original and (aux.main is not self._act.frame):
+                return None # running for another frame so not ours to run
+
             aux.segue()
             aux.recur()
 
@@ -1215,8 +1218,9 @@ class Suspender(Interrupter):
         console.terse("Suspender {0}\n".format(self.name))
 
     def deactivize(self, aux, **kwa):
-        """ If not aux.done Then force deactivate. Used in exit action."""
-        if not aux.done:
+        """ If not aux.done and aux is not in use by another frame
+            Then force deactivate. Used in exit action."""
+        if not aux.done and (not aux.original or aux.main is self._act.frame):
             console.profuse("{0} deactivate {1}\n".format(self.name, aux.name))
             self.deactivate(aux)
 
